@@ -23,7 +23,7 @@ ASSUMPTIONS = [
     "declaring on a node overrides the binding of that prefix throughout its subtree",
     "fix_nsmap / set_nsmap are outside the quantifier's operation set",
 ]
-REQUIRED = ["histories_with_prefixed_elements", "steps", "attach_steps", "declare_steps", "redeclare_steps", "remove_steps", "redeclare_on_node_sharing_parent_map",
+REQUIRED = ["detach_steps_clearing_the_parent_link", "histories_with_prefixed_elements", "steps", "attach_steps", "declare_steps", "redeclare_steps", "remove_steps", "redeclare_on_node_sharing_parent_map",
             "frame_checks_outside_subtree", "states_expanded", "attachments_made_by_reference_expansion"]
 EXHAUSTIVE = {"quick": False, "thorough": False}
 
@@ -89,6 +89,10 @@ def enumerate_ops(f, n_nodes, prefixes=PFX, uris=URI):
         for c in range(n_nodes):
             if f.may_attach(x, c):
                 ops.append(("attach", x, c))
+        for c in f.kids[x]:
+            # a child is taken out and its parent link cleared (a node on its way to another place): whatever dictionary object it still
+            # has in common with the tree it came from, its declarations are its own from now on
+            ops.append(("detach", x, c, True))
     return ops
 
 
@@ -98,7 +102,10 @@ def apply_real(nodes, op):
     if op[0] == "remove":
         return nodes[op[1]].remove_namespace(op[2])
     if op[0] == "detach":
-        return nodes[op[1]].remove_child(nodes[op[2]])
+        r = nodes[op[1]].remove_child(nodes[op[2]])
+        if len(op) > 3 and op[3]:
+            nodes[op[2]].parent = None
+        return r
     return nodes[op[1]].add_child(nodes[op[2]])
 
 
@@ -341,7 +348,9 @@ def random_history(ctx, hist_no):
                 break
             continue
         if k < 0.1 and f.kids[x]:
-            op = ("detach", x, rng.choice(f.kids[x]))
+            op = ("detach", x, rng.choice(f.kids[x]), rng.random() < 0.5)
+            if op[3]:
+                ctx.count("detach_steps_clearing_the_parent_link")
         elif k < 0.4:
             cands = [c for c in range(n) if f.may_attach(x, c)]
             if not cands:
